@@ -203,7 +203,7 @@ func (e *env[E, P, D, T]) shared(rounds int) {
 			if j.inv {
 				op, f = "FFTInverse", e.in.FFTInverse
 			}
-			e.one(op, f, j.d, j.pre, j.in, j.want, j.dit, j.coset, nbOpt{1, true}, lg, j.v, "default-shift", make([]E, n))
+			e.one(op, f, j.d, j.pre, j.in, j.want, j.dit, j.coset, nbOpt{1, true}, lg, j.v, "default-shift", e.work(n))
 		}
 		for r := 0; r < rounds; r++ {
 			var wg sync.WaitGroup
@@ -211,7 +211,7 @@ func (e *env[E, P, D, T]) shared(rounds int) {
 				wg.Add(1)
 				go func(j job) {
 					defer wg.Done()
-					buf := make([]E, n)
+					buf := e.work(n)
 					op, f := "FFT", e.in.FFT
 					if j.inv {
 						op, f = "FFTInverse", e.in.FFTInverse
